@@ -85,6 +85,8 @@ type FnCtx struct {
 
 type Frame struct {
 	fc       *FnCtx
+	hintCallRes []SV // results of the call a `hint after` is attached to (bound as callresult, callresult<i>)
+	noPanicOld string // ext_nopanic.go: the `nopanic when` condition of the root function, evaluated in the entry state ("" = none)
 	fn       *ssa.Function
 	spec     *FuncSpec
 	prefix   string
